@@ -123,6 +123,22 @@ class Network(BaseModel):  # pylint: disable=too-many-public-methods
         self.routing.addr_width = self.protocols[0].addr_width
         return self
 
+    @model_validator(mode="after")
+    def validate_addr_ranges(self):
+        """Check that all address ranges fit into the address width."""
+        addr_space = 2**self.routing.addr_width
+        for ep in self.endpoints:
+            for rng in ep.addr_range:
+                end = rng.end
+                # Every element of a subordinate array gets its own copy of the range
+                if ep.array is not None and ep.is_sbr() and rng.base is not None:
+                    end = max(end, rng.base + rng.size * ep.num)
+                if end > addr_space:
+                    raise ValueError(
+                        f"Address range {rng} of endpoint {ep.name} exceeds "
+                        f"the address width of {self.routing.addr_width} bits")
+        return self
+
     def create_routers(self):
         """Create the routers in the network."""
 
